@@ -179,7 +179,6 @@ def drv_data(ch):
         p["a2"] = ch.all("a2", [0, 1, -1, None])
         p["second"] = ch.all("second", ["Squeeze", "Unsqueeze", "Reshape-1"])
     elif t == "identity_shape":
-        p["decl"] = ch.all("decl", [["N", 3], [2, 3], ["K", 3], [None, 3], None])
         p["op"] = ch.all("op", ["Identity", "Relu", "Cast"])
         p["then"] = ch.all("then", ["shape", "expand_self", "reshape_self", "none"])
     elif t == "matmul_reshape":
